@@ -158,9 +158,14 @@ def is_value_op(f, path):
     if not b or b["kind"] not in ("Fn", "AssocFn") or b.get("coroutine_kind"):
         return False
     tys = [f.ty_s(b["locals"][i + 1]["ty"]) for i in range(b["arg_count"])]
-    if not tys or not all(t in (VALUE, "&" + VALUE, "&" + INDEX) for t in tys) or not any(t in (VALUE, "&" + VALUE) for t in tys):
+    if not tys or not any(t in (VALUE, "&" + VALUE) for t in tys):
         return False
-    return f.ty_s(b["locals"][0]["ty"]).startswith("std::result::Result<value::Value")
+    # it may take further plain parameters (an index step, a mode selector, a function item) but nothing through
+    # which it could evaluate a sub-expression or reach the ruleset
+    if any("EvalContext" in t or EXPR in t or "RuleSet" in t for t in tys):
+        return False
+    rt = f.ty_s(b["locals"][0]["ty"])
+    return rt.startswith("std::result::Result<value::Value") or rt == VALUE
 
 
 def dispatch_rows(f, max_paths=5000, loop_bound=2):
@@ -246,6 +251,86 @@ def operator_cells(f, path, max_paths=3000):
             outs.append({"conds": list(s.conds), "ret": it.resolve(s, rv), "events": list(s.events), "flags": set(s.flags)})
         cells[tuple(combo[i] for i in order)] = outs
     return cells
+
+
+def kind_cells(f, disp, kinds, max_paths=4000):
+    """operator table *by node kind*, read through the evaluator's own arm: for every tuple of operand tags the
+    sub-expressions' evaluations are given concrete tagged results (payload symbols L.i / R.i / X.i) and the arm is
+    interpreted with the operator code inlined — so it does not matter how the operators are factored into
+    functions, helpers, macros or mode parameters.  -> kind -> tag tuple -> outcomes"""
+    fn_path, cor_path = disp["fn"], disp["coroutine"]
+    body = f.bodies[cor_path]
+    ctx_self = lambda p: (f.bodies.get(p, {}).get("impl") or {}).get("self_s", "").startswith("expr::eval::context::EvalContext")
+    out = {}
+    for kind in kinds:
+        var = next((v for v in f.adts[EXPR]["variants"] if v["name"] == kind), None)
+        if var is None:
+            continue
+        roles = []          # per field: ("expr", i) | ("index", i) | ("other", i)
+        for i, fl in enumerate(var["fields"]):
+            ts = fl["ty_s"]
+            if ts in ("std::boxed::Box<%s>" % EXPR, EXPR):
+                roles.append("expr")
+            elif ts == INDEX:
+                roles.append("index")
+            else:
+                roles.append("other")
+        operands = [i for i, r in enumerate(roles) if r == "expr"] + [i for i, r in enumerate(roles) if r == "index"]
+        if not operands or "other" in roles:
+            continue
+        names = (["L", "R", "X"] if len(operands) > 1 else ["X"])
+        name_of = {i: names[k] for k, i in enumerate(operands)}
+        doms = [f.variant_names(VALUE) if roles[i] == "expr" else f.variant_names(INDEX) for i in operands]
+        table = {}
+        for combo in itertools.product(*doms):
+            it = Interp(f, opaque=lambda p: p == fn_path or ctx_self(p), max_paths=max_paths, loop_bound=1)
+            st = State()
+            results = {}
+            fields = []
+            for i, r in enumerate(roles):
+                tag = combo[operands.index(i)]
+                nm = name_of[i]
+                if r == "expr":
+                    child = ("sym", "self.%s.%d" % (kind, i))
+                    vv = it.variant(VALUE, tag)
+                    val = ("adt", VALUE, tag, tuple(("sym", "%s.%d" % (nm, j)) for j in range(len(vv["fields"]))))
+                    results["self.%s.%d" % (kind, i)] = val
+                    fields.append(("box", child) if var["fields"][i]["ty_s"].startswith("std::boxed::Box") else child)
+                else:
+                    vv = it.variant(INDEX, tag)
+                    fields.append(("adt", INDEX, tag, tuple(("sym", "%s.%d" % (nm, j)) for j in range(len(vv["fields"])))))
+
+            def hook(itp, s_, fut, results=results):
+                if fut[0] == "call" and (fut[1] == fn_path or fut[1].split("::<")[0] == fn_path or short_of(fut[1]) == short_of(fn_path)) and fut[2]:
+                    a0 = fut[2][0]
+                    while a0[0] in ("rref", "box"):
+                        a0 = a0[1]
+                    if a0[0] == "sym" and a0[1] in results:
+                        return ("adt", "std::result::Result", "Ok", (results[a0[1]],))
+                return None
+            it.await_hook = hook
+            selfv = ("adt", EXPR, kind, tuple(fields))
+            ctx = ("ref", st.alloc(("sym", "ctx")))
+            cor = ("coroutine", cor_path, (("ref", st.alloc(selfv)), ctx))
+            fid = it.new_frame(st)
+            st.frames[fid][1] = cor
+            st.frames[fid][2] = ("sym", "task_context")
+            try:
+                res = it.run_body(body, st, fid, 0)
+            except (PathLimit, Unsupported) as e:
+                table[combo] = [{"conds": [], "ret": ("sym", "<%r>" % (e,)), "events": [], "flags": {"unsupported"}}]
+                continue
+            outs = []
+            for s, rv in res:
+                outs.append({"conds": list(s.conds), "ret": it.resolve(s, rv), "events": list(s.events), "flags": set(s.flags)})
+            table[combo] = outs
+        out[kind] = table
+    return out
+
+
+def short_of(name):
+    from norm import short_callee
+    return short_callee(name)
 
 
 def outcome_class(ret):
